@@ -279,3 +279,206 @@ def tags_c15(h, obs):
             if m and m.group(2):
                 t.add("vote:" + m.group(2).split()[0][:9])
     return t
+
+
+# ------------------------------------------------------------------------------------------ C16: gating + life cycles
+import json as _json
+import os as _os
+
+SVC = ["c1:s1", "c1:s2", "c2:s1", "c2:s3", "c4:s1", "c3:s1"]
+BLACKLIST = {("c1:s2", "c3:s1")}       # (source, destination) pairs blocked by the destination's blacklist in the fixed world
+
+
+def load_lifecycle():
+    for p in (_os.path.join(core.CACHE, "facts.json"), _os.path.join(core.VERIF, "facts.baseline.json")):
+        if _os.path.exists(p):
+            items = _json.load(open(p)).get("items", {})
+            if "lifecycle" in items:
+                return items["lifecycle"], items.get("availableStatus", {})
+    return {}, {}
+
+
+class LcGen(GovGen):
+    def __init__(self, r):
+        super().__init__(r)
+        self.idx = {}
+
+    def observe(self, svc):
+        c = svc.split(":")[0]
+        self.ops.append(f"q obj service {svc}")
+        self.ops.append(f"q obj appchain {c}")
+
+    def ibtp(self):
+        r = self.r
+        f, t = r.sample(SVC, 2)
+        if r.random() < 0.1:
+            t = r.choice(["c1:s9", "c9:s1"])          # a destination service that does not exist
+        i = self.idx.get((f, t), 1)
+        self.observe(f)
+        self.observe(t)
+        self.ops.append(f"block ibtp ca{f[1]} {f} {t} {i} req 0 - ok")
+        self.idx[(f, t)] = i + 1      # a rejected request makes the next index wrong: that request is then rejected for the index, fine
+        self.ops.append(f"q status 1356:{f}-1356:{t}-{i}")
+        self.tags.add("ibtp-probe")
+
+    def govern(self):
+        r = self.r
+        k = r.random()
+        if k < 0.45:
+            s = r.choice(SVC)
+            c = s.split(":")[0]
+            ev = r.choice(["FreezeService", "FreezeService", "ActivateService", "LogoutService"])
+            who = f"ca{c[1]}" if ev == "LogoutService" else r.choice(ADMINS)
+            self.submit(who, f"service {ev} s:{s} s:reason", "service-" + ev[:-7].lower(), "service", s)
+        elif k < 0.85:
+            c = r.choice(["c1", "c2", "c4"])
+            ev = r.choice(["FreezeAppchain", "FreezeAppchain", "ActivateAppchain", "LogoutAppchain"])
+            who = f"ca{c[1]}" if ev == "LogoutAppchain" else r.choice(ADMINS)
+            self.submit(who, f"appchain {ev} s:{c} s:reason", "appchain-" + ev[:-8].lower(), "appchain", c)
+        else:
+            sid = f"s{r.randint(5, 9)}"
+            self.submit("ca1", f"service RegisterService s:c1 s:{sid} s:svc-c1-{sid} s:CallContract s:intro u:1 s:~ s:details s:reason",
+                        "service-register", "service", f"c1:{sid}")
+        ref, kind, mod, obj = self.props[-1]
+        # conclude it (mostly): the super admin and two others vote the same way, sometimes the vote is left open
+        ballot = r.choice(["approve", "approve", "reject"])
+        voters = ["adm0", "adm1", "adm2", "adm3"]
+        r.shuffle(voters)
+        for v in voters[:r.choice([0, 2, 3, 3, 4])]:
+            self.ops.append(f"block bvm {v} gov Vote s:{ref} s:{ballot} s:r")
+            self.ops.append(f"q prop {ref}")
+            self.ops.append(f"q obj {mod} {obj}")
+            if mod == "appchain":
+                for s in SVC:
+                    if s.startswith(obj + ":"):
+                        self.ops.append(f"q obj service {s}")
+
+
+def gen_c16(rng, n, tier):
+    import random as _r
+    hs = []
+    for _ in range(n):
+        r = _r.Random(rng.getrandbits(64))
+        g = LcGen(r)
+        g.tags = {"c16"}
+        g.ops.append(f"world audit={r.choice([0, 0, 1])} price=1")
+        for s in SVC:
+            g.observe(s)
+        for _ in range(r.randint(5, 14)):
+            k = r.random()
+            if k < 0.5:
+                g.ibtp()
+            elif k < 0.9:
+                g.govern()
+            else:
+                g.ops.append("restart")
+                g.tags.add("restart")
+        for s in SVC:
+            g.observe(s)
+        hs.append(History(g.ops, tags=g.tags))
+    return hs
+
+
+def mon_c16(h, obs):
+    hits = []
+    tables, avail = load_lifecycle()
+    status = {}        # (kind, id) -> latest status
+    once_forbidden = set()
+    blocks_since = {}  # (kind,id) -> number of block ops since its last observation
+    steps = list(zip(h.ops, obs))
+    for i, (op, o) in enumerate(steps):
+        ws = op.split()
+        if ws[0] in ("block", "restart"):
+            for k in blocks_since:
+                blocks_since[k] += 1
+        if ws[0] == "q" and ws[1] == "obj" and ws[2] in ("appchain", "service", "role", "node", "rule"):
+            kind, oid = ws[2], ws[3]
+            m = re.search(r"status=(\S+)", o)
+            new = m.group(1) if m else "unavailable"        # no record yet: the FSMs call that `unavailable`
+            key = (kind, oid)
+            old = status.get(key)
+            if key in once_forbidden and new != "forbidden" and kind != "rule":
+                hits.append(Hit(f"C16/logged-out-object-revived/{kind}", f"{kind} {oid} was forbidden and is now {new}", detail=op))
+            if new == "forbidden":
+                once_forbidden.add(key)
+            if old is not None and new != old and blocks_since.get(key, 0) == 1 and kind in tables:
+                # one block can take an object through several transitions (e.g. unpause, then the restored proposal's own
+                # event): the change must be a path of at most 3 transitions of the table
+                def nxt(st):
+                    out = set()
+                    for e in tables[kind]:
+                        if st in e["src"]:
+                            out.add(e["dst"])
+                    return out
+                frontier, reach = {old}, set()
+                for _ in range(3):
+                    step = set()
+                    for st in frontier:
+                        for d in nxt(st):
+                            if d == "<last>":
+                                step |= {x for e in tables[kind] for x in e["src"]} | {"available", "unavailable", "frozen", "bindable"}
+                            else:
+                                step.add(d)
+                    reach |= step
+                    frontier = step
+                edge = new in reach
+                if not edge:
+                    hits.append(Hit(f"C16/status-change-off-lifecycle/{kind}/{old}->{new}",
+                                    f"{kind} {oid} went {old} -> {new}, which is no transition of its state machine", detail=steps[i - 1][0] if i else op))
+            status[key] = new
+            blocks_since[key] = 0
+        if ws[0] == "block" and len(ws) > 2 and ws[1] == "ibtp" and " | " not in op:
+            m = mon_exec.BLK.match(o)
+            if not m or not m.group(2):
+                continue
+            rc = m.group(2).split()[0]
+            f, t = ws[3], ws[4]
+            sa = set(avail.get("service", ["available"]))
+            aa = set(avail.get("appchain", ["available"]))
+            fs, ts = status.get(("service", f)), status.get(("service", t), "unavailable")
+            fresh = all(blocks_since.get(("service", x), 9) <= 1 for x in (f, t))
+            if fs is None or not fresh:
+                continue
+            ok = rc.startswith("S:")
+            ret = rc.split(":")[1] if ":" in rc else ""
+            if fs not in sa and ok:
+                hits.append(Hit("C16/unavailable-source-accepted", f"request {f}->{t} accepted ({rc}) while the source service is {fs}", detail=op))
+            dst_bad = ts not in sa or (f, t) in BLACKLIST
+            if fs in sa and ok:
+                if dst_bad and ret != "begin_failure":
+                    hits.append(Hit("C16/unusable-destination-recorded-for-execution", f"request {f}->{t}: destination service is {ts}{' (blacklists the source)' if (f, t) in BLACKLIST else ''} but the receipt is {rc}", detail=op))
+                if not dst_bad and ret == "begin_failure":
+                    hits.append(Hit("C16/usable-destination-begin-failed", f"request {f}->{t}: both services available but the receipt is {rc}", detail=op))
+            # cascade: a frozen / logged-out appchain has no usable service
+            for svc in (f, t):
+                ca = status.get(("appchain", svc.split(":")[0]))
+                ss = status.get(("service", svc))
+                if ca is not None and ss is not None and ca not in aa and ca in ("frozen", "forbidden") and ss in sa:
+                    hits.append(Hit("C16/service-usable-on-unusable-appchain", f"appchain {svc.split(':')[0]} is {ca} but its service {svc} is {ss}", detail=op))
+    return hits
+
+
+def tags_c16(h, obs):
+    t = set()
+    for op, o in zip(h.ops, obs):
+        if op.startswith("q obj"):
+            m = re.search(r"status=(\S+)", o)
+            if m:
+                t.add(op.split()[2] + ":" + m.group(1))
+        if op.startswith("block ibtp") and " | " not in op:
+            m = mon_exec.BLK.match(o)
+            if m and m.group(2):
+                t.add("probe:" + m.group(2).split()[0][:18])
+    return t
+
+
+def mask_c16(impl, model, ops=None):
+    """the exec model does not follow governance operations: once one of them succeeded on the real node the service records
+    of the model are stale, so the comparison of that history stops there"""
+    oi, om = mon_exec.mask_unmodelled(impl, model, ops)
+    if ops is None:
+        return oi, om
+    for idx in range(min(len(oi), len(om), len(ops))):
+        if ops[idx].startswith("block bvm") and re.search(r" (gov|service|appchain|role|rule) ", ops[idx]) and idx < len(impl) and impl[idx] and "rc=[S:" in impl[idx]:
+            return oi[:idx + 1], om[:idx + 1]
+    return oi, om
